@@ -6,7 +6,7 @@
 From Coq Require Import List NArith ZArith.
 From Coq Require Import Strings.Byte.
 From GoBT Require Import lib.Bytes lib.Ripemd160 model.ScriptNum model.Interp model.CheckSig proofs.ScriptNumProofs proofs.ShiftProofs proofs.InterpTotal
-  model.Tx proofs.CheckSigProofs proofs.MultisigProofs spec.VerifyScriptSpec proofs.VerifyRefine.
+  model.Tx proofs.CheckSigProofs proofs.MultisigProofs spec.VerifyScriptSpec proofs.VerifyRefine proofs.InterpLimits.
 Import ListNotations.
 
 (** script numbers: sign-magnitude little-endian, minimal *)
@@ -144,6 +144,36 @@ Example C05_verif_opens_nothing :
   fst (engine_execute no_sigops (mkExecInput [x51] [x00; x63; x65; x68; x51; x6a; x4c] 16384 false false 0 0 0)) = VOk /\
   fst (engine_execute no_sigops (mkExecInput [x51] [x00; x63; x66; x68; x51; x6a; x02] 16384 false false 0 0 0)) = VOk /\
   fst (engine_execute no_sigops (mkExecInput [x51] [x00; x63; x63; x68; x51; x6a; x4c] 16384 false false 0 0 0)) = VErr.
+Proof. vm_compute. repeat split; reflexivity. Qed.
+
+(** ** Limits as an invariant over every execution: at every AfterStep snapshot of every run, in both eras, every
+    element of the data and the alt stack is at most [max_elem] bytes long (520 before Genesis) and the two stacks
+    together hold at most [max_stack] items (1000 before Genesis) — by induction over the opcodes executed, for
+    every script pair, flag word and context, with no bound on the script length.  One opcode preserves the
+    element bound (the interesting cases are the ones that create data: pushes, OP_CAT, OP_NUM2BIN, arithmetic on
+    operands of at most [max_numlen] bytes, shifts and bitwise operations, hashes); the depth bound is what
+    [run_ops] tests after every step. *)
+Theorem C05_one_opcode_keeps_element_limit : forall so c p idx s s',
+  sigops_sized so -> sized c s -> (depth s <= max_stack c)%Z ->
+  execute_opcode so c p idx s = OOk s' \/ execute_opcode so c p idx s = OReturn s' -> sized c s'.
+Proof. exact execute_opcode_sized. Qed.
+Print Assumptions C05_one_opcode_keeps_element_limit.
+
+Theorem C05_limits_hold_at_every_step : forall i,
+  Forall (snap_ok (engine_ctx i)) (snd (engine_execute no_sigops i)).
+Proof. exact engine_execute_limits_nosig. Qed.
+Print Assumptions C05_limits_hold_at_every_step.
+
+Theorem C05_limits_hold_at_every_step_signatures : forall orc t n i,
+  Forall (snap_ok (engine_ctx i)) (snd (engine_execute (mk_sigops orc t n) i)).
+Proof. exact engine_execute_limits_mk. Qed.
+Print Assumptions C05_limits_hold_at_every_step_signatures.
+
+Example C05_limit_examples :
+  (* 260 + 260 bytes concatenate to a 520-byte element before Genesis; 300 + 300 do not; after Genesis they do *)
+  fst (engine_execute no_sigops (mkExecInput [] ([x4d; x04; x01] ++ repeat x61 260 ++ [x4d; x04; x01] ++ repeat x62 260 ++ [x7e; x82; x75; x75; x51]) 0 false false 0 0 0)) = VOk /\
+  fst (engine_execute no_sigops (mkExecInput [] ([x4d; x2c; x01] ++ repeat x61 300 ++ [x4d; x2c; x01] ++ repeat x62 300 ++ [x7e; x82; x75; x75; x51]) 0 false false 0 0 0)) = VErr /\
+  fst (engine_execute no_sigops (mkExecInput [] ([x4d; x2c; x01] ++ repeat x61 300 ++ [x4d; x2c; x01] ++ repeat x62 300 ++ [x7e; x82; x75; x75; x51]) 16384 false false 0 0 0)) = VOk.
 Proof. vm_compute. repeat split; reflexivity. Qed.
 
 (** non-vacuity / sanity on concrete programs in both eras *)
